@@ -296,9 +296,9 @@ func (st *ccState) checkStillReading(v *vio) {
 			due++
 		}
 	}
-	if len(st.rx) < due {
-		d := st.delivered[len(st.rx)]
-		v.add("R6-stopped-reading", "%d datagram(s) were put into the client's socket strictly before it was closed at t=%v, but only %d were ever read: the receive loop stopped reading although no read had failed (first unread: %q delivered at t=%v)", due, tClose, len(st.rx), d.tag, d.t)
+	if st.sockReads < due {
+		d := st.delivered[st.sockReads]
+		v.add("R6-stopped-reading", "%d datagram(s) were put into the client's socket strictly before it was closed at t=%v, but only %d were ever read: the receive loop stopped reading although no read had failed (first unread: %q delivered at t=%v)", due, tClose, st.sockReads, d.tag, d.t)
 	}
 }
 
